@@ -63,4 +63,45 @@ SEEDS = [
 				return fmt.Errorf("copy dir %s: %w", p, err)
 			}
 			continue''', '''			continue''')]},
+ {"name": "c16-refactor-exclusion-helper", "properties": ["C16"], "silent": True, "expect": "",
+  "edits": [e("sync/copy.go", "const maxCopyAllSize = 64 * 1024 * 1024", """// isExcluded reports whether an entry with this base name is skipped by the copy.
+func isExcluded(name string) bool {
+	return excludedPaths[name]
+}
+
+const maxCopyAllSize = 64 * 1024 * 1024"""),
+            e("sync/copy.go", "		if excludedPaths[name] {", "		if isExcluded(name) {"),
+            e("sync/verify.go", "		if excludedPaths[path.Base(p)] {", "		if isExcluded(path.Base(p)) {", 2)]},
+ {"name": "c16-exclusion-helper-given-full-path", "properties": ["C16"], "expect": "C16-c|",
+  "edits": [e("sync/copy.go", "const maxCopyAllSize = 64 * 1024 * 1024", """func isExcluded(name string) bool {
+	return excludedPaths[name]
+}
+
+const maxCopyAllSize = 64 * 1024 * 1024"""),
+            e("sync/copy.go", "		if excludedPaths[name] {", "		if isExcluded(name) {"),
+            e("sync/verify.go", "		if excludedPaths[path.Base(p)] {", "		if isExcluded(p) {", 2)]},
+ {"name": "c16-exclusion-suffix-match", "properties": ["C16"], "expect": "C16-c|",
+  "edits": [e("sync/copy.go", "const maxCopyAllSize = 64 * 1024 * 1024", """func isExcluded(p string) bool {
+	for name := range excludedPaths {
+		if len(p) >= len(name) && p[len(p)-len(name):] == name {
+			return true
+		}
+	}
+	return false
+}
+
+const maxCopyAllSize = 64 * 1024 * 1024"""),
+            e("sync/copy.go", "		if excludedPaths[name] {", "		if isExcluded(name) {")]},
+ {"name": "c16-eof-chunk-dropped", "properties": ["C16"], "expect": "C16-d|",
+  "edits": [e("sync/copy.go", """			n, rerr := in.Read(buf)
+			if n > 0 {""", """			n, rerr := in.Read(buf)
+			if n > 0 && rerr == nil {""")]},
+ {"name": "c16-refactor-eof-test-after-write-loop", "properties": ["C16"], "silent": True, "expect": "",
+  "edits": [e("sync/copy.go", """			n, rerr := in.Read(buf)
+			if n > 0 {
+				written := 0
+				for written < n {""", """			n, rerr := in.Read(buf)
+			{
+				written := 0
+				for written < n {""")]},
 ]
